@@ -271,7 +271,15 @@ func (s *LinearState) Rem(ctx *Context, id string) (bool, error) {
 	timer := NewTimer(ctx, "LinearState.Rem")
 	defer timer.Stop()
 
+	// Like IndexedState: the hook and the removal happen under one
+	// lock.  With the hook run before the lock was taken, an Add of
+	// the same id could come in between: it registered its schedule,
+	// and then we removed the rule whose schedule it was.
+	s.slock(ctx, false)
+	defer s.sunlock(ctx, false)
 	if s.remHook != nil {
+		s.withPrivilege(ctx)
+		defer s.withoutPrivilege(ctx)
 		if err := s.remHook(ctx, s, id); err != nil {
 			Log(ERROR, ctx, "LinearState.Rem", "state", s.Name, "error", err,
 				"id", id, "when", "remHook")
@@ -280,7 +288,7 @@ func (s *LinearState) Rem(ctx *Context, id string) (bool, error) {
 		}
 	}
 
-	return s.rem(ctx, id, true)
+	return s.rem(ctx, id, false)
 }
 
 func (s *LinearState) rem(ctx *Context, id string, lock bool) (bool, error) {
